@@ -6,6 +6,9 @@ understands (see harness/session/runner.py:make_tree for the matching scratch co
 import runlib as R
 
 LOCAL_OK = [b'alice@example.org', b'bob@example.org', b'list@example.org', b'any@x.sub.example.org']
+# address literals: the local IP of the v4 / v6 harness configuration (accepted, written to the envelope with localiphost)
+# and a foreign one (no such user)
+LITERALS = [b'alice@[192.0.2.2]', b'bob@[IPv6:2001:db8::2]', b'x@[192.0.2.77]', b'x@[IPv6:2001:db8::77]']
 LOCAL_NO = [b'nobody@example.org', b'carol@example.org']
 REMOTE = [b'x@example.net', b'y@example.com', b'z@mail.example.net']
 REMOTE_BAD = [b'x@nomx.example.net', b'x@nullmx.example.net']
@@ -14,7 +17,8 @@ SENDERS = [b'a@example.net', b'b@example.com', b'alice@example.org', b'']
 
 
 def rcpt(rng, kind=None):
-    kind = kind or rng.choice(['ok', 'ok', 'ok', 'no', 'remote', 'remote', 'rbad', 'syntax', 'more', 'nobracket'])
+    kind = kind or rng.choice(['ok', 'ok', 'ok', 'no', 'remote', 'remote', 'rbad', 'syntax', 'more', 'nobracket', 'literal'])
+    if kind == 'literal': return b'RCPT TO:<' + rng.choice(LITERALS) + b'>\r\n'
     if kind == 'ok': return b'RCPT TO:<' + rng.choice(LOCAL_OK) + b'>\r\n'
     if kind == 'no': return b'RCPT TO:<' + rng.choice(LOCAL_NO) + b'>\r\n'
     if kind == 'remote': return b'RCPT TO:<' + rng.choice(REMOTE) + b'>\r\n'
@@ -91,7 +95,8 @@ def config(rng):
     cfg = ['relay=' + rng.choice(['none', 'none', 'listed', 'listed', 'unlisted', 'badsize', 'badprefix', 'unreadable']),
            'ip=' + rng.choice(['v4', 'v4', 'v6']),
            'databytes=' + rng.choice(['0', '0', '200', '1000'])]
-    plan = [rng.choice(['ok', 'ok', 'ok', 'exit:1', 'exit:10', 'exit:11', 'exit:31', 'exit:40', 'exit:41', 'exit:100', 'die:a:0:sig', 'die:a:0:53'])
+    plan = [rng.choice(['ok', 'ok', 'ok', 'exit:1', 'exit:10', 'exit:11', 'exit:31', 'exit:40', 'exit:41', 'exit:100', 'die:a:0:sig', 'die:a:0:53',
+                        'die:b:0:1', 'die:m:5:sig', 'die:m:150:2', 'ce:1', 'ce:0', 'die:e:1:sig'])
             for _ in range(6)]
     cfg.append('qq=' + ','.join(plan))
     return ';'.join(cfg)
@@ -111,6 +116,9 @@ def sensible(rng):
         if rng.random() < 0.3:
             chunks.insert(rng.randrange(1, len(chunks) + 1), rng.choice([b'RSET\r\n', b'EHLO again.example.net\r\n', b'HELO \r\n', b'NOOP\r\n', b'FOO\r\n']))
         chunks.append(b'DATA\r\n'); chunks.append(body(rng, rng.random() < 0.3))
+        if rng.random() < 0.35:
+            # carry on as if the transaction were still open (it must not be, whatever the outcome of DATA was)
+            chunks.append(rcpt(rng, 'ok')); chunks.append(b'DATA\r\n'); chunks.append(body(rng))
     if rng.random() < 0.5:
         chunks.append(b'QUIT\r\n')
     return chunks
